@@ -89,7 +89,11 @@ class Externals:
         return None
 
     def module_import(self, mod, name):
-        for n in source.module(mod).body:
+        body = list(source.module(mod).body)
+        for n in list(body):
+            if isinstance(n, ast.Try):          # optional dependency: try: import x / except ImportError: x = None
+                body += n.body
+        for n in body:
             if isinstance(n, ast.Import):
                 for a in n.names:
                     if (a.asname or a.name.split('.')[0]) == name:
@@ -118,6 +122,8 @@ class Externals:
             return Recorder(full + '.' + name)
         if full == 'threading' and name == 'Event':
             return ClassV('threading.Event')
+        if full in ('redis.exceptions', 'aioredis.exceptions'):
+            return ClassV('redis.' + name)
         if full.startswith('socketio.'):
             m = full.split('.', 1)[1]
             try:
@@ -154,7 +160,7 @@ class Externals:
             return iter([(ctx, Recorder(base.path + '.' + attr))])
         if isinstance(base, ModuleV):
             r = self._module_attr(eng, ctx, base, attr)
-            if r is None and base.name.split('.')[0] in ('time', 'datetime', 'os', 'socket', 'engineio', 'urllib', 'functools', 'uuid'):
+            if r is None and base.name.split('.')[0] in ('time', 'datetime', 'os', 'socket', 'engineio', 'urllib', 'functools', 'uuid', 'pickle', 'redis'):
                 return iter([(ctx, Recorder(base.name + '.' + attr))])
             return r
         if isinstance(base, ClassV):
@@ -263,6 +269,10 @@ class Externals:
             return iter([(ctx, BUILTINS[full])])
         if name in ('engineio.exceptions',):
             return iter([(ctx, ClassV('eio.' + attr))])
+        if name == 'redis' and attr == 'exceptions':
+            return iter([(ctx, ModuleV('redis.exceptions'))])
+        if name == 'redis.exceptions':
+            return iter([(ctx, ClassV('redis.' + attr))])
         if name == 'engineio' and attr in ('exceptions', 'packet', 'json'):
             return iter([(ctx, ModuleV('engineio.' + attr))])
         if name == 'asyncio' and attr in ('TimeoutError', 'CancelledError'):
@@ -985,6 +995,13 @@ def _wait_for(eng, ctx, args, kwargs):
                 yield c, Raised(Exc('asyncio.TimeoutError'))
         return
     yield ctx, x
+
+
+@builtin('asyncio.sleep')
+def _aio_sleep(eng, ctx, args, kwargs):
+    """await asyncio.sleep(t): recorded like time.sleep(t)"""
+    ctx.notes.append(('api', 'asyncio.sleep', args, dict(kwargs), None, None))
+    yield ctx, S(NONE)
 
 
 @builtin('asyncio.wait')
